@@ -765,3 +765,18 @@ package pdf
 //@   loop 1: invariant forall j in 0..old(len(data.log)) :: data.log[j] == old(data.log[j])
 //@   loop 1: invariant forall k in 0..(w - 1 - i) :: data.log[old(len(data.log)) + k] == beDigit(x, w, k)
 //@   loop 1: decreases i + 1
+
+// ---- per-stream budget (C08): JBIG2Decode buffers its whole input, so what it pulls from
+// ---- the stage below must be capped by the budget's headroom, not only by the size limit.
+// rdpos counts the bytes pulled from r; left is the budget's headroom (ghost, see stdlib.spec).
+//@ func asMalformedFilter (rc, err) (res, e)
+//@   trusted
+//@   assigns nothing
+
+//@ func (*FilterJBIG2).Decode (f, v, r, budget) (rc, err)
+//@   tags C08
+//@   requires f != nil && r != nil && budget != nil && refof(r) != 0
+//@   claims post/ pre/io.LimitReader pre/io.ReadAll
+//@   assigns *
+//@   ensures r.rdpos <= old(r.rdpos) + max(old(budget.left), 0) + 1
+//@   ensures r.rdpos <= old(r.rdpos) + 67108864 + 2
